@@ -424,7 +424,30 @@ func startProc(exe string, args []string, env []string) (*proc, error) {
 	return &proc{cmd: cmd, in: in, out: bufio.NewReaderSize(out, 1<<20)}, nil
 }
 
+// TaskTimeout: real-time limit for one task (a path replay plus one expansion
+// takes milliseconds to seconds; only code that hangs or busy-loops gets here).
+var TaskTimeout = 10 * time.Minute
+
 func (p *proc) do(t Task) (Result, error) {
+	type rr struct {
+		r   Result
+		err error
+	}
+	ch := make(chan rr, 1)
+	go func() {
+		r, err := p.do1(t)
+		ch <- rr{r, err}
+	}()
+	select {
+	case x := <-ch:
+		return x.r, x.err
+	case <-time.After(TaskTimeout):
+		p.cmd.Process.Kill()
+		return Result{}, fmt.Errorf("HANG: the code under test did not return within %v while running path %v", TaskTimeout, t.Path)
+	}
+}
+
+func (p *proc) do1(t Task) (Result, error) {
 	b, _ := json.Marshal(t)
 	b = append(b, '\n')
 	if _, err := p.in.Write(b); err != nil {
